@@ -60,6 +60,10 @@ def gen_cases(tier, seed):
                 piece = w[a:a + r.randrange(2, 4)]
                 if len(piece) >= 2:
                     items.append(["w", piece.lower()])
+        if nt and r.random() < 0.2:
+            # the same hashtag written again (once or twice): each occurrence is a label, at its own place
+            for _ in range(r.choice((1, 1, 2))):
+                items.append(["h", r.choice([x for k, x in items if k == "h"])])
         r.shuffle(items)
         seps = [r.choice(SEPS) for _ in range(len(items) + 1)]
         cases.append({"items": items, "seps": seps, "ts": r.choice(TSS), "c": cls, "lead": r.random() < 0.2, "trail": r.random() < 0.2})
